@@ -16,6 +16,7 @@ __thread int g_worker_rank;
 volatile int verif_ctx_saved[4];
 volatile int verif_wake[4];
 volatile int verif_started[4];
+volatile int verif_nrun[4];
 
 #if VN == 2
 static inline struct myth_thread *verif_td(int k){ return k == 0 ? &TD0 : &TD1; }
@@ -60,7 +61,7 @@ static inline void verif_make_runnable(void *q, struct myth_thread *th){
   verif_check(k >= 0 && k < VN, "model: only thread descriptors are made runnable");
   verif_check(verif_ctx_saved[k], "a thread is made runnable only after its context has been saved");
   verif_check(!verif_wake[k], "a thread is made runnable at most once per suspension (no double resume)");
-  verif_wake[k] = 1;
+  verif_wake[k] = 1; verif_nrun[k]++;
 }
 static inline struct myth_thread *verif_pop(void *q){ (void)q; return 0; }
 static inline void verif_switch_to(myth_context_t to, int me){
@@ -69,7 +70,7 @@ static inline void verif_switch_to(myth_context_t to, int me){
   if (k >= 0) {   /* direct switch to a thread (e.g. the joiner at thread exit) */
     verif_check(verif_ctx_saved[k], "a context is resumed only after it has been saved");
     verif_check(!verif_wake[k], "a context is resumed at most once per suspension (no double resume)");
-    verif_wake[k] = 2;
+    verif_wake[k] = 2; verif_nrun[k]++;
   }
 }
 static inline void verif_after_resume(int me){
